@@ -27,7 +27,7 @@ func (c *Ctx) Control(name string) *core.Prog {
 	if p, ok := c.ctl[name]; ok {
 		return p
 	}
-	p, err := core.Load(core.LoadOpts{Dir: c.SaDir, Patterns: []string{"./controls/" + name}, MinPkgs: 1})
+	p, err := core.Load(core.LoadOpts{Dir: c.SaDir, Patterns: []string{"./controls/" + name + "/..."}, MinPkgs: 1})
 	if err != nil {
 		c.R.Fatal("control package %s does not load: %v", name, err)
 		c.ctl[name] = nil
